@@ -59,6 +59,27 @@ def flatElse (ctx : LCtx) (lbl : String) : Option (List BCmd) → List BLine
   | some b => .cgoto lbl :: .elseOpen :: flats ctx b
 end
 
+/-! ### well-formed trees: the simple lines are not structural -/
+
+mutual
+def wfB : BCmd → Bool
+  | .simple l => plainB l
+  | .guarded _ body => wfBs body
+  | .chain _ _ thn elifs els => wfBs thn && wfElifs elifs && wfElse els
+  | .loop _ pre _ body => wfBs pre && wfBs body
+  | .brk => true
+  | .cont => true
+def wfBs : List BCmd → Bool
+  | [] => true
+  | x :: xs => wfB x && wfBs xs
+def wfElifs : List (String × List BCmd) → Bool
+  | [] => true
+  | (_, b) :: rest => wfBs b && wfElifs rest
+def wfElse : Option (List BCmd) → Bool
+  | none => true
+  | some b => wfBs b
+end
+
 /-- the test of a block line `if "c" equ "1" (` -/
 def guardB (ρ : Store) (c : String) : Option Bool := (expandD ρ c).map (· == "1")
 
